@@ -29,6 +29,11 @@ CHECKS = {
     technique="TLA+ transcription of the p0f field definitions (TcpExtract.tla) with wire rendering (Frames.tla); TLC enumerates header classes, TTLs and option sequences and the expected observation; vectors replayed through parse_packet + process_ipv4/6_packet; exhaustive window-classification table validated by TLC (TV_C03W)",
     text="TLC enumerates the header space in factors (all 256 flag bytes x DF/ID/ECN/reserved/flow/seq/ack/urgent cases for IPv4 and IPv6; all 256 TTLs x version x payload x Ethernet/raw/loopback framing x IHL; all option sequences up to length 3 (4 in thorough) in four padding styles on SYN and SYN+ACK), renders each to wire bytes, and assigns role, every signature field, MTU and link label from the specification; the real analyzer must agree field by field, deviations being accepted only where a recorded finding predicts exactly that output. All 65536 windows per (MSS, header term, timestamp, version) case are classified by the real code and each checked by TLC.",
     note="Trusted: TLC, TcpExtract/Frames, harness projection. Window priority is CodeDerived. Quirks compared as sets. Malformed option areas are left to C01."),
+ "C19": dict(
+    level="model_checking", design="§5 C19",
+    technique="TLA+ timestamp-tracker machine with exact arithmetic (Uptime.tla); TLC-generated scenarios (frames + scripted clock + acceptable outputs per segment) replayed into the real TCP analyzer through clock hook H1",
+    text="The tracker (reference / bad marker per directed endpoint, guards on interval, tick difference and rate, documented rounding grid, uptime split, wrap period, role rule) is specified with exact integer arithmetic on u32 pairs; TLC generates every rate 1..1500 Hz and rates outside, at every interval around the 25 ms / 100 ms / 600 s bounds, from timestamp bases including the 2^31 and 2^32 wrap, three segments per endpoint (so that the never-moving reference and no-re-evaluation-after-bad are exercised), client and server interleaved; the real analyzer, with its clock scripted through the hook, must report an acceptable value under the right role at every segment.",
+    note="Trusted: TLC, Uptime.tla, hook H1. Ties of rounding/tolerance comparisons accepted either way; backward-moving timestamps not judged. Real-time cache expiry (30 s) is not explored."),
 }
 
 NOT_YET = {}
